@@ -109,8 +109,12 @@ func(_aes_cbc_dec_256_sse)
 	endbranch
 	FUNC_SAVE
 
+	test	arg5, arg5	; an empty message: nothing to read or write
+	jz	.done
+
         AES_CBC_DEC arg1, arg2, arg3, arg4, arg5, r10, 13
 
+.done:
 	FUNC_RESTORE
 	ret
 
